@@ -225,6 +225,23 @@ def check_kernels(tier, seed):
     except ImportError:
         pass
     try:
+        import scipy.signal as sig
+        for _ in range(reps):
+            p_ = int(rng.integers(1, 4))
+            T = int(rng.integers(1, 6))
+            ar = np.concatenate(([rng.choice([1.0, 2.0])], rng.normal(size=p_)))
+            past = rng.normal(size=p_ + int(rng.integers(0, 2)))      # y[-1], y[-2], ... (possibly more than needed)
+            x = rng.normal(size=T)
+            y, _zf = sig.lfilter((1,), ar, x, zi=sig.lfiltic((1,), ar, past), axis=0)
+            hist = list(past)
+            for t in range(T):
+                want = (x[t] - sum(ar[j] * hist[j - 1] for j in range(1, p_ + 1))) / ar[0]
+                assert abs(y[t] - want) <= 1e-9 * max(1.0, abs(want)), "lfilter: a[0] y[t] + sum a[k] y[t-k] == x[t] from the initial conditions"
+                hist.insert(0, y[t])
+            n += 1
+    except ImportError:
+        pass
+    try:
         import daqp
         import ctypes
         for _ in range(reps):
@@ -254,7 +271,7 @@ def check_kernels(tier, seed):
     except ImportError:
         pass
     return {"contract": "assumed kernel contracts: numpy.linalg.solve (A X = b, functional, NaN propagates), scipy solve_discrete_lyapunov "
-                        "(fixed point, symmetry, shape errors), daqp.solve (KKT point of the bounded QP)", "cases": n, "exhaustive": False,
+                        "(fixed point, symmetry, shape errors), scipy.signal.lfiltic/lfilter with b=(1,) (autoregressive recursion from initial conditions), daqp.solve (KKT point of the bounded QP)", "cases": n, "exhaustive": False,
             "bound": "random well-conditioned systems of dimension 1-5"}
 
 
